@@ -235,6 +235,32 @@ theorem renameAt_eq_map_swap (S : List Nat) (old new : α) (evs : List (Ev α))
     · have h2 : n ≠ old := fun e => hl (h1.mpr e)
       simp [renameEv, hl, Ev.map, swap, h2, hf]
 
+/-- …and at module level: the whole rewritten module (`apply_renaming`), provided no class
+declaration (the binder of `this`) is among the renamed locations (`rewrite::rename` refuses that,
+fix 69a554a). -/
+theorem rename_module_commutes (S : List Nat) (new this : α) (m : Module α)
+    (ht : ∀ t ∈ m.toplevels, t.loc ∉ S) :
+    visitModule this (Module.renameAt S new m) = renameAt S new (visitModule this m) :=
+  visitModule_renameAt S new this m ht
+
+/-- **whole-module statement**: the analysis (`perform_ssa_analysis_on_module`) of the module
+rewritten by the renamer has the same use→definition map, invalid set, reference lists,
+diagnostics and unbound names, and the renamed binding / capture tables. -/
+theorem rename_module_preserves_resolution (S : List Nat) (d : Nat) (old new this : α) (m : Module α)
+    (ht : ∀ t ∈ m.toplevels, t.loc ∉ S)
+    (h : Admissible S d old new (visitModule this m) init) :
+    (analyze this (Module.renameAt S new m)).useDef = (analyze this m).useDef ∧
+    (analyze this (Module.renameAt S new m)).invalid = (analyze this m).invalid ∧
+    defToUse (analyze this (Module.renameAt S new m)) = defToUse (analyze this m) ∧
+    (analyze this (Module.renameAt S new m)).errors = (analyze this m).errors ∧
+    (analyze this (Module.renameAt S new m)).unbound = (analyze this m).unbound ∧
+    (analyze this (Module.renameAt S new m)).scopedDefs =
+      (analyze this m).scopedDefs.map (fun e => (e.1, List.map (rnE d new) e.2)) ∧
+    (analyze this (Module.renameAt S new m)).lambdaCaps =
+      (analyze this m).lambdaCaps.map (fun e => (e.1, List.map (rnE d new) e.2)) := by
+  simp only [analyze, rename_module_commutes S new this m ht]
+  exact rename_preserves_resolution S d old new (visitModule this m) h
+
 /-- **`rename_preserves_resolution_partial`** (kept: it also covers ill-scoped modules, which the
 general theorem does not): if the new name is fresh and the
 renamed occurrences are *all* occurrences of the old name, everything — including captures and
